@@ -276,14 +276,19 @@ def gen_intervals(rng):
     """Disjoint storm runs and rise runs on a short index axis; candidates =
     overlapping pairs (plus, sometimes, arbitrary extra pairs)"""
     n = rng.randint(6, 40)
+    long_events = rng.random() < 0.05
+    if long_events:
+        # events of thousands of steps (an all-day rain in one-minute data): durations and start
+        # offsets of the order of 1e3-1e4
+        n = rng.randint(8000, 30000)
 
     def disjoint_runs():
         out = []
         i = rng.randint(0, 2)
         while i < n:
-            L = rng.randint(1, 4)
+            L = rng.randint(1, 4) if not long_events else rng.choice([rng.randint(1, 4), rng.randint(800, 4000)])
             out.append((i, min(n, i + L)))
-            i += L + rng.randint(1, 4)
+            i += L + (rng.randint(1, 4) if not long_events else rng.choice([rng.randint(1, 4), rng.randint(500, 3000)]))
         return out
 
     storms = disjoint_runs()                                 # steps [a, b)
